@@ -64,6 +64,71 @@ func (s *src) Read(p []byte) (int, error) {
 	return n, nil
 }
 
+// writeTo mirrors Src.writeTo: the whole rest goes to w in ONE Write; the source advances by what
+// the writer accepted; result = the writer's error, else the terminal (nil for EOF).
+func (s *src) writeTo(w io.Writer) (int64, error) {
+	if s.closes > 0 {
+		s.readsAfterClose++
+		return 0, errSrcClosed
+	}
+	if len(s.rest) == 0 {
+		return 0, errOfTerm(s.term)
+	}
+	n, err := w.Write(s.rest)
+	if n < 0 || n > len(s.rest) {
+		panic("c16: writer returned an impossible count")
+	}
+	s.rest = s.rest[n:]
+	if err != nil {
+		return int64(n), err
+	}
+	return int64(n), errOfTerm(s.term)
+}
+
+func errOfTerm(e error) error {
+	if e == io.EOF {
+		return nil
+	}
+	return e
+}
+
+// The four shapes of a scripted source as seen through type assertions: with/without io.Closer,
+// with/without io.WriterTo.
+type closableSrcWT struct{ *src }
+
+func (c closableSrcWT) Close() error                        { c.src.closes++; return nil }
+func (c closableSrcWT) WriteTo(w io.Writer) (int64, error) { return c.src.writeTo(w) }
+
+type readerOnlyWT struct{ s *src }
+
+func (r readerOnlyWT) Read(p []byte) (int, error)         { return r.s.Read(p) }
+func (r readerOnlyWT) WriteTo(w io.Writer) (int64, error) { return r.s.writeTo(w) }
+
+// stdSrc wraps a real standard-library reader that implements io.WriterTo (strings.Reader,
+// bytes.Reader, bytes.Buffer, *os.File) and counts Close calls; after Close it fails like the
+// scripted source does.
+type stdSrc struct {
+	r interface {
+		io.Reader
+		io.WriterTo
+	}
+	closes int
+}
+
+func (s *stdSrc) Read(p []byte) (int, error) {
+	if s.closes > 0 {
+		return 0, errSrcClosed
+	}
+	return s.r.Read(p)
+}
+func (s *stdSrc) WriteTo(w io.Writer) (int64, error) {
+	if s.closes > 0 {
+		return 0, errSrcClosed
+	}
+	return s.r.WriteTo(w)
+}
+func (s *stdSrc) Close() error { s.closes++; return nil }
+
 // closableSrc adds Close (io.ReadCloser); a bare *src wrapped in readerOnly has no Close method.
 type closableSrc struct{ *src }
 
@@ -78,7 +143,41 @@ type wr struct {
 	got    []byte
 	cap    int
 	closes int
+	rf     int // > 0: the ReadFrom variants read with buffers of this size
 }
+
+// readFrom mirrors copyLoop with m = rf (the scripted writer's io.ReaderFrom).
+func (w *wr) readFrom(r io.Reader) (int64, error) {
+	buf := make([]byte, w.rf)
+	var total int64
+	for i := 0; i < 1<<22; i++ {
+		n, er := r.Read(buf)
+		if n > 0 {
+			nw, ew := w.Write(buf[:n])
+			total += int64(nw)
+			if ew != nil {
+				return total, ew
+			}
+		}
+		if er == io.EOF {
+			return total, nil
+		}
+		if er != nil {
+			return total, er
+		}
+	}
+	return total, errors.New("stuck")
+}
+
+type closableWrRF struct{ *wr }
+
+func (c closableWrRF) Close() error                          { c.wr.closes++; return nil }
+func (c closableWrRF) ReadFrom(r io.Reader) (int64, error) { return c.wr.readFrom(r) }
+
+type writerOnlyRF struct{ w *wr }
+
+func (x writerOnlyRF) Write(p []byte) (int, error)          { return x.w.Write(p) }
+func (x writerOnlyRF) ReadFrom(r io.Reader) (int64, error) { return x.w.readFrom(r) }
 
 func (w *wr) Write(p []byte) (int, error) {
 	if w.cap < 0 {
